@@ -26,6 +26,8 @@ pub fn alphabets() -> Vec<Alphabet> {
         Alphabet { id: "A-uni", symbols: vec!["\u{feff}", "\u{a0}", "\u{200b}", "\u{2028}", "\u{85}", "µ", "μ", "π", "é", "\u{301}", "x", " ", "1", ";"] },
         // identifier-like lexemes: hardware qubits, underscores, directive prefixes
         Alphabet { id: "A-ident", symbols: vec!["$", "_", "0", "1", "a", "é", "#", "@", "pragma", "dim", " ", "\n", "x", "😀"] },
+        // code points at the borders of the ASCII table and of the UTF-8 lengths
+        Alphabet { id: "A-bound", symbols: vec!["\u{7f}", "\u{80}", "\u{81}", "\u{ff}", "\u{100}", "\u{7ff}", "\u{800}", "\u{ffff}", "\u{10000}", "\u{10ffff}", "\u{1}", " ", "a", "1"] },
         Alphabet { id: "A-punct", symbols: vec!["<", ">", "=", "!", "&", "|", "+", "-", "*", ".", ":", "/", " ", "a"] },
     ]
 }
